@@ -8,7 +8,10 @@ use iceoryx2_bb_memory::one_chunk_allocator::OneChunkAllocator;
 use iceoryx2_bb_memory::pool_allocator::{FixedSizePoolAllocator, PoolAllocator};
 
 #[derive(Clone, Copy, Debug)]
-pub enum Op { Alloc(usize, usize), DeallocNth(usize), DeallocBad }
+pub enum Op { Alloc(usize, usize), DeallocNth(usize), DeallocBad,
+    /// allocate Layout(bucket_size(), bucket alignment) until the allocator reports an error: the
+    /// pool is drained completely, so the LAST bucket is exercised with its full size
+    Drain }
 
 pub fn lay(s: usize, a: usize) -> Layout { Layout::from_size_align(s, a).unwrap() }
 
@@ -22,10 +25,13 @@ pub fn canonical_history(bs: usize, ba: usize, nb_guess: usize) -> Vec<Op> {
     let mut aligns = vec![1usize, ba, (ba / 2).max(1), (ba * 2).min(4096), 4096];
     aligns.sort(); aligns.dedup();
     for s in &sizes { for a in &aligns { ops.push(Op::Alloc(*s, *a)); } }
+    ops.push(Op::Drain);
     for k in 0..4 { ops.push(Op::DeallocNth(k)); }
     for _ in 0..(nb_guess + 2) { ops.push(Op::Alloc(bs, ba)); }
+    ops.push(Op::Drain);
     for _ in 0..(nb_guess + 2) { ops.push(Op::DeallocNth(0)); }
     for _ in 0..(nb_guess + 1) { ops.push(Op::Alloc(bs.min(1), 1)); }
+    ops.push(Op::Drain);
     ops
 }
 
@@ -37,9 +43,12 @@ pub fn random_history(rng: &mut Rng, bs: usize, ba: usize, len: usize) -> Vec<Op
             let s = match rng.below(8) { 0 => 0, 1 => bs + 1, 2 => bs, 3 => bs.saturating_sub(1), 4 => 1, _ => rng.below(bs as u64 + 2) as usize };
             let a = match rng.below(6) { 0 => rng.pick(&ALIGNS), 1 => (ba * 2).min(4096), _ => ALIGNS[rng.below((ba.trailing_zeros() + 1) as u64) as usize] };
             ops.push(Op::Alloc(s, a));
-        } else if r < 99 { ops.push(Op::DeallocNth(rng.below(16) as usize)); }
+        } else if r < 96 { ops.push(Op::DeallocNth(rng.below(16) as usize)); }
+        else if r < 99 { ops.push(Op::Drain); }
         else { ops.push(Op::DeallocBad); }
     }
+    // every random history ends with the pool drained completely (unless it ended out of contract)
+    if !matches!(ops.last(), Some(Op::DeallocBad)) && !ops.iter().any(|o| matches!(o, Op::DeallocBad)) { ops.push(Op::Drain); }
     ops
 }
 
@@ -49,6 +58,8 @@ pub trait Sut {
     fn dealloc(&mut self, v: u64) -> Option<()>;
     /// a value that is not a valid allocation (None: not supported)
     fn bad_value(&self) -> Option<u64> { None }
+    /// (bucket size, bucket alignment) as the allocator advertises them (None: no buckets)
+    fn bucket(&self) -> Option<(usize, usize)> { None }
 }
 
 pub fn run_history(sut: &mut dyn Sut, ops: &[Op], out: &mut Out) {
@@ -63,6 +74,15 @@ pub fn run_history(sut: &mut dyn Sut, ops: &[Op], out: &mut Out) {
             Op::DeallocNth(k) => if !live.is_empty() {
                 let v = live.remove(k % live.len());
                 match sut.dealloc(v) { Some(()) => out.line(&format!("O dealloc {} = ok", v)), None => { out.line(&format!("O dealloc {} = P", v)); return; } }
+            },
+            Op::Drain => if let Some((bsz, bal)) = sut.bucket() {
+                for _ in 0..100000 {
+                    match sut.alloc(bsz, bal) {
+                        None => { out.line(&format!("O alloc {} {} = P", bsz, bal)); return; }
+                        Some(Ok(v)) => { live.push(v); out.line(&format!("O alloc {} {} = ok:{}", bsz, bal, v)); }
+                        Some(Err(k)) => { out.line(&format!("O alloc {} {} = err:{}", bsz, bal, k)); break; }
+                    }
+                }
             },
             Op::DeallocBad => if let Some(v) = sut.bad_value() {
                 if !live.contains(&v) {
@@ -88,6 +108,7 @@ impl Sut for PoolSut {
     fn bad_value(&self) -> Option<u64> {
         if self.bs > 1 { Some((self.p.start_address() as usize - self.base + 1) as u64) } else { None }
     }
+    fn bucket(&self) -> Option<(usize, usize)> { Some((self.p.bucket_size(), self.p.max_alignment())) }
 }
 
 pub fn pool_case(bs: usize, ba: usize, ptr_off: usize, size: usize, ops: &[Op], out: &mut Out) {
@@ -105,7 +126,7 @@ pub fn pool_case(bs: usize, ba: usize, ptr_off: usize, size: usize, ops: &[Op], 
         Some(Err(e)) => { out.line(&format!("O new = err:{}", err_name(e))); return; }
         Some(Ok(())) => {}
     }
-    out.line(&format!("O new = ok:{}:{}", p.number_of_buckets(), p.start_address() as usize - blk.base));
+    out.line(&format!("O new = ok:{}:{}:{}", p.number_of_buckets(), p.start_address() as usize - blk.base, p.bucket_size()));
     let mut sut = PoolSut { p, base: blk.base, bs };
     run_history(&mut sut, ops, out);
 }
@@ -163,7 +184,7 @@ fn fixed_case_m<const M: usize>(bs: usize, ba: usize, ptr_off: usize, size: usiz
     // it); we box it after construction exactly like a caller storing it in a struct would.
     let r = guarded(|| FixedSizePoolAllocator::<M>::new(lay(bs, ba), ptr, size));
     let p = match r { None => { out.line("O new = P"); return; } Some(p) => p };
-    out.line(&format!("O new = ok:{}", p.number_of_buckets()));
+    out.line(&format!("O new = ok:{}:{}", p.number_of_buckets(), p.bucket_size()));
     // moving the value would invalidate the self-relative pointer; use it in place
     let base = blk.base;
     let mut live: Vec<u64> = vec![];
@@ -179,6 +200,16 @@ fn fixed_case_m<const M: usize>(bs: usize, ba: usize, ptr_off: usize, size: usiz
                 match guarded(|| unsafe { p.deallocate(NonNull::new_unchecked((base + v as usize) as *mut u8), lay(1, 1)) }) {
                     Some(()) => out.line(&format!("O dealloc {} = ok", v)), None => { out.line(&format!("O dealloc {} = P", v)); return; } }
             },
+            Op::Drain => {
+                let (bsz, bal) = (p.bucket_size(), p.max_alignment());
+                for _ in 0..100000 {
+                    match guarded(|| p.allocate(lay(bsz, bal)).map(|q| (q.as_ptr() as usize - base) as u64).map_err(err_name)) {
+                        None => { out.line(&format!("O alloc {} {} = P", bsz, bal)); return; }
+                        Some(Ok(v)) => { live.push(v); out.line(&format!("O alloc {} {} = ok:{}", bsz, bal, v)); }
+                        Some(Err(k)) => { out.line(&format!("O alloc {} {} = err:{}", bsz, bal, k)); break; }
+                    }
+                }
+            }
             Op::DeallocBad => {}
         }
     }
@@ -306,5 +337,119 @@ pub fn run_onechunk(args: &Args, out: &mut Out) {
             let ops = random_history(&mut rng, size, 8, 20);
             onechunk_case(off, size, &ops, out);
         }
+    }
+}
+
+// ------------------------------------------------------------------------------------ drain (search) mode
+/// extra argv of the drain mode: c15 drn <component> <level> <shard> <nshards> <seed> <p1> <p2> ...
+pub fn drain_params() -> Vec<usize> { std::env::args().skip(7).map(|s| s.parse().unwrap()).collect() }
+
+pub const GUARD: usize = 4096;
+pub fn fill_guards(base: usize, off: usize, size: usize) {
+    unsafe {
+        for i in 0..off { *((base + i) as *mut u8) = 0xA5; }
+        for i in 0..GUARD { *((base + off + size + i) as *mut u8) = 0xA5; }
+    }
+}
+fn guards_ok(base: usize, off: usize, size: usize) -> bool {
+    unsafe { (0..off).all(|i| *((base + i) as *const u8) == 0xA5) && (0..GUARD).all(|i| *((base + off + size + i) as *const u8) == 0xA5) }
+}
+
+/// Search history: drain the pool with full-bucket requests, write a canary into EVERY byte of
+/// every bucket, re-read all canaries after each deallocate / allocate round, and check the
+/// guard zones before and behind the real block [base+off, base+off+size).
+pub fn drain_run(sut: &mut dyn Sut, addr_of: &dyn Fn(u64) -> usize, base: usize, off: usize, size: usize, out: &mut Out) {
+    let (bsz, bal) = match sut.bucket() { Some(b) => b, None => return };
+    let hi_writable = base + off + size + GUARD;
+    let mut live: Vec<(u64, u8)> = vec![];
+    let mut next = 1u8;
+    let fill = |v: u64, c: u8| -> bool {
+        let a = addr_of(v);
+        if a < base || a + bsz > hi_writable { return false; }
+        for i in 0..bsz { unsafe { *((a + i) as *mut u8) = c.wrapping_add(i as u8) }; }
+        true
+    };
+    let check = |live: &Vec<(u64, u8)>| -> bool {
+        live.iter().all(|(v, c)| { let a = addr_of(*v); a >= base && a + bsz <= hi_writable && (0..bsz).all(|i| unsafe { *((a + i) as *const u8) } == c.wrapping_add(i as u8)) })
+    };
+    for round in 0..3 {
+        for _ in 0..100000 {
+            match sut.alloc(bsz, bal) {
+                None => { out.line(&format!("O alloc {} {} = P", bsz, bal)); return; }
+                Some(Err(k)) => { out.line(&format!("O alloc {} {} = err:{}", bsz, bal, k)); break; }
+                Some(Ok(v)) => {
+                    out.line(&format!("O alloc {} {} = ok:{}", bsz, bal, v));
+                    let c = next; next = next.wrapping_add(41);
+                    if !fill(v, c) { out.line("O canary = 0"); }
+                    live.push((v, c));
+                    out.line(&format!("O canary = {}", if check(&live) { 1 } else { 0 }));
+                }
+            }
+        }
+        out.line(&format!("O guard = {}", if guards_ok(base, off, size) { 1 } else { 0 }));
+        // free every other one (round 0), every third (round 1), all (round 2)
+        let step = [2usize, 3, 1][round];
+        let mut k = 0;
+        while k < live.len() {
+            let (v, _) = live.remove(k);
+            match sut.dealloc(v) { Some(()) => out.line(&format!("O dealloc {} = ok", v)), None => { out.line(&format!("O dealloc {} = P", v)); return; } }
+            out.line(&format!("O canary = {}", if check(&live) { 1 } else { 0 }));
+            k += step - 1;
+        }
+    }
+    out.line(&format!("O guard = {}", if guards_ok(base, off, size) { 1 } else { 0 }));
+}
+
+pub fn drain_pool(out: &mut Out) {
+    let q = drain_params();
+    if q.len() < 4 { return; }
+    let (bs, ba, off, size) = (q[0], q[1], q[2], q[3]);
+    out.line(&format!("C pool {} {} {} {}", bs, ba, off, size));
+    let blk = Block::new(off + size + GUARD + 64);
+    fill_guards(blk.base, off, size);
+    let mut mgmt = vec![0u32; 1 << 15];
+    let bump = BumpAllocator::new(NonNull::new(mgmt.as_mut_ptr() as *mut u8).unwrap(), mgmt.len() * 4);
+    let ptr = NonNull::new((blk.base + off) as *mut u8).unwrap();
+    let r = guarded(|| Box::new(unsafe { PoolAllocator::new_uninit(lay(bs, ba), ptr, size) }));
+    let mut p = match r { None => { out.line("O new = P"); return; } Some(p) => p };
+    match guarded(|| unsafe { p.init(&bump) }) { Some(Ok(())) => {} _ => { out.line("O new = P"); return; } }
+    out.line(&format!("O new = ok:{}:{}:{}", p.number_of_buckets(), p.start_address() as usize - blk.base, p.bucket_size()));
+    let base = blk.base;
+    let mut sut = PoolSut { p, base, bs };
+    drain_run(&mut sut, &|v| base + v as usize, base, off, size, out);
+}
+
+struct FixedRef<'a, const M: usize> { p: &'a FixedSizePoolAllocator<M>, base: usize }
+impl<'a, const M: usize> Sut for FixedRef<'a, M> {
+    fn alloc(&mut self, s: usize, a: usize) -> Option<Result<u64, &'static str>> {
+        let base = self.base; let p = self.p;
+        guarded(|| p.allocate(lay(s, a)).map(|q| (q.as_ptr() as usize - base) as u64).map_err(err_name))
+    }
+    fn dealloc(&mut self, v: u64) -> Option<()> {
+        let base = self.base; let p = self.p;
+        guarded(|| unsafe { p.deallocate(NonNull::new_unchecked((base + v as usize) as *mut u8), lay(1, 1)) })
+    }
+    fn bucket(&self) -> Option<(usize, usize)> { Some((self.p.bucket_size(), self.p.max_alignment())) }
+}
+
+fn drain_fixed_m<const M: usize>(bs: usize, ba: usize, off: usize, size: usize, out: &mut Out) {
+    out.line(&format!("C fixed {} {} {} {} {}", M, bs, ba, off, size));
+    let blk = Block::new(off + size + GUARD + 64);
+    fill_guards(blk.base, off, size);
+    let ptr = NonNull::new((blk.base + off) as *mut u8).unwrap();
+    let p = match guarded(|| FixedSizePoolAllocator::<M>::new(lay(bs, ba), ptr, size)) { None => { out.line("O new = P"); return; } Some(p) => p };
+    out.line(&format!("O new = ok:{}:{}", p.number_of_buckets(), p.bucket_size()));
+    let base = blk.base;
+    let mut sut = FixedRef { p: &p, base };
+    drain_run(&mut sut, &|v| base + v as usize, base, off, size, out);
+}
+
+pub fn drain_fixed(out: &mut Out) {
+    let q = drain_params();
+    if q.len() < 5 { return; }
+    match q[0] {
+        1 => drain_fixed_m::<1>(q[1], q[2], q[3], q[4], out), 2 => drain_fixed_m::<2>(q[1], q[2], q[3], q[4], out),
+        3 => drain_fixed_m::<3>(q[1], q[2], q[3], q[4], out), 4 => drain_fixed_m::<4>(q[1], q[2], q[3], q[4], out),
+        8 => drain_fixed_m::<8>(q[1], q[2], q[3], q[4], out), _ => drain_fixed_m::<16>(q[1], q[2], q[3], q[4], out),
     }
 }
